@@ -46,7 +46,18 @@ LimbCases(j) == Cat([i \in 1..3 |-> FpCases(j, Aof(j, PP), LimbBelow(PP, i)) \o 
 ExactCases == << Rec("fp", "add", BSub(PP, <<5>>), <<5>>), Rec("fp", "add", BSub(PP, <<1>>), <<1>>), Rec("fp", "add", BSub(PP, <<5>>), <<4>>), Rec("fp", "add", BSub(PP, <<5>>), <<6>>),
                 Rec("fn", "add", BSub(NN, <<5>>), <<5>>), Rec("fn", "add", BSub(NN, <<1>>), <<1>>), Rec("fn", "add", BSub(NN, <<5>>), <<4>>), Rec("fn", "add", BSub(NN, <<5>>), <<6>>) >>
 Cases(j) == (IF j = 1 THEN LimbCases(j) \o ExactCases ELSE <<>>) \o Cat([q \in 1..Len(Deltas(j)) |-> FpCases(j, Aof(j, PP), Deltas(j)[q]) \o FnCases(j, Aof(j, NN), Deltas(j)[q])], 1)
+\* two DIFFERENT curve points with the same y: for P = (x1, y) the other roots of x^3 + a x + b = y^2 are (-x1 +- sqrt(-3 x1^2 - 4a)) / 2
+Half(v) == BMulMod(v, BPowMod(<<2>>, BSub(PP, <<2>>), PP), PP)
+OtherX(x1, sq) == Half(BSubMod(sq, x1, PP))
+Disc(x1) == BSubMod(BSubMod(BZero, BMulMod(<<3>>, BMulMod(x1, x1, PP), PP), PP), BMulMod(<<4>>, AA, PP), PP)
+RECURSIVE SameY(_, _, _)
+SameY(x, need, acc) == IF need = 0 \/ x > 300 THEN acc
+                       ELSE IF C!Lift(<<x>>, 0)[1] = "ok" /\ C!Sqrt(Disc(<<x>>))[1] = "ok" /\ C!Sqrt(Disc(<<x>>))[2] # BZero /\ OtherX(<<x>>, C!Sqrt(Disc(<<x>>))[2]) # <<x>>
+                            THEN SameY(x + 1, need - 1, Append(acc, [kind |-> "samey", x1 |-> B32(<<x>>), y |-> B32(C!Lift(<<x>>, 0)[2][2]), x2 |-> B32(OtherX(<<x>>, C!Sqrt(Disc(<<x>>))[2]))]))
+                            ELSE SameY(x + 1, need, acc)
+SameYCases == SameY(1, 3, <<>>)
+ASSUME \A q \in 1..Len(SameYCases) : C!OnCurve(<<BFromBE(SameYCases[q].x2), BFromBE(SameYCases[q].y)>>) /\ SameYCases[q].x2 # SameYCases[q].x1
 Init == pidx = 0 /\ pout = <<>>
-Next == pidx < NK /\ pidx' = pidx + 1 /\ pout' = Cases(pidx + 1)
+Next == pidx < NK /\ pidx' = pidx + 1 /\ pout' = Cases(pidx + 1) \o (IF pidx = 0 THEN SameYCases ELSE <<>>)
 Emit == \A j \in 1..Len(pout) : PrintT(<<"PLAN", ToJson(pout[j])>>)
 =============================================================================
